@@ -1,7 +1,7 @@
 """C16 — lock-free ring buffer: bounded, exactly-once, never overwrites an unread slot (structural part)."""
 from core import strip, is_field, order_ge, key_str
 from facts import AnalysisBroken
-from rules import (nodeset, ev, Unevaluable, atom_from, reach, atomic_ops, ret_const, forced_edges)
+from rules import (through_local, nodeset, ev, Unevaluable, atom_from, reach, atomic_ops, ret_const, forced_edges)
 
 EXPLANATION = (
     "Decides the claim/publish skeleton of lockfree_ring_buffer.h (and the same skeleton in the bounded channel, see C11): "
@@ -84,7 +84,7 @@ def check_claim(ctx, P, fn, rec, mode, rule):
     sl = [s for s in fn.stores() if strip(s.target).k == "ArraySubscriptExpr" and is_field(fn.key(strip(s.target).kids[0], True), rec, "buffer")]
     if not sl:
         bad = bad or "the slot is never %s" % ("written" if mode == "push" else "cleared")
-    casp = lambda leaf, pol: strip(leaf) is c.node and pol is True
+    casp = lambda leaf, pol: through_local(fn, leaf) is c.node and pol is True
     for s in sl:
         if fn.guarded(s.node, casp) is not None:
             bad = bad or "the slot is %s without having won the CAS" % ("written" if mode == "push" else "cleared")
